@@ -17,6 +17,7 @@ import (
 
 	cc "gitlab.com/gomidi/midi/v2/internal/verifh/conccases"
 	cp "gitlab.com/gomidi/midi/v2/internal/verifh/concpairs"
+	"gitlab.com/gomidi/midi/v2/internal/verifh/disturb"
 	"gitlab.com/gomidi/midi/v2/internal/verifh/engine"
 	"gitlab.com/gomidi/midi/v2/internal/verifh/faultio"
 	"gitlab.com/gomidi/midi/v2/internal/verifh/refsmf"
@@ -332,6 +333,7 @@ func spaces() []space {
 
 func main() {
 	ctx = engine.Start("C02", "exploration")
+	disturb.Install(ctx)
 	if ctx.ReplayPath != "" {
 		if cp.Replay(ctx, ctx.LoadReplay(), "smf-read", cc.SMFRead()) {
 			ctx.Finish("replay")
